@@ -784,7 +784,9 @@ where
             }
             Instruction::MStructSet(n) => {
                 let n: usize = n.into();
-                let mut field_name_value_pairs = Vec::with_capacity(n);
+                // `n` comes from the bytecode: let the vector grow with what
+                // the stack really holds instead of reserving `n` up front.
+                let mut field_name_value_pairs = Vec::new();
 
                 for _ in 0..n {
                     let field_val = self.ipop_value()?;
